@@ -362,3 +362,6 @@ impl Frame {
         self.temporary_base + self.temporaries_used_in_frame
     }
 }
+
+#[cfg(feature = "verif-hooks")]
+pub mod verif_hooks;
